@@ -152,16 +152,17 @@ func (x *heapInst) Ops() []space.Op {
 		}
 		ops = append(ops, space.Op{Name: "FixForeign", Args: []int{v}})
 	}
-	for _, s := range startSlices {
+	for _, s := range initOpSlices {
 		ops = append(ops, space.Op{Name: "Init", Args: s})
 	}
-	for _, s := range startSlices {
+	for _, s := range initOpSlices {
 		if len(s) >= 2 && len(s) <= 3 {
 			ops = append(ops, space.Op{Name: "InitOtherCmp", Args: s})
 		}
 	}
 	if n >= 1 {
 		ops = append(ops, space.Op{Name: "PopAllStop", Args: []int{1}})
+		ops = append(ops, space.Op{Name: "PopAllUnused"}, space.Op{Name: "PopAllStopThenAgain"})
 		for v := 0; v < numValues; v++ {
 			ops = append(ops, space.Op{Name: "PopAllPush", Args: []int{v}})
 		}
@@ -255,24 +256,74 @@ func (x *heapInst) apply(op space.Op) *space.Mismatch {
 			return mm("Element.Index|departed-not-minus-one", "the element yielded by PopAll reports Index() = %d, want -1", e.Index())
 		}
 
+	case "PopAllUnused":
+		// creating the sequence takes nothing out: elements leave when they are yielded
+		before := backing(x.h)
+		seq := x.h.PopAll()
+		_ = seq
+		if !sameSeq(before, backing(x.h)) {
+			return mm("Heap.PopAll|element-lost-or-duplicated", "calling PopAll() without ranging over the result changed the heap (had %d elements, has %d)", len(before), len(backing(x.h)))
+		}
+
+	case "PopAllStopThenAgain":
+		// the same sequence value ranged twice: stopped after one element, then to the end — together
+		// a permutation of the content, every element exactly once
+		want := x.values()
+		before := backing(x.h)
+		seq := x.h.PopAll()
+		var got []int
+		for v := range seq {
+			got = append(got, v)
+			break
+		}
+		for v := range seq {
+			got = append(got, v)
+			if len(got) > len(want)+2 {
+				break
+			}
+		}
+		if !sameMultiset(got, want) || len(backing(x.h)) != 0 {
+			return mm("Heap.PopAll|element-lost-or-duplicated", "one PopAll() sequence ranged twice (stopped after one element, then to the end) yielded %v and left %d elements; want a permutation of %v and an empty heap", got, len(backing(x.h)), sorted(want))
+		}
+		x.live = map[*hElem]int{}
+		if len(before) > 0 {
+			x.stale = before[0]
+		}
+		for i, e := range before {
+			if e.Index() != -1 {
+				return mm("Element.Index|departed-not-minus-one", "after PopAll the element that was at position %d reports Index() = %d, want -1", i, e.Index())
+			}
+		}
+
 	case "PopAllPush":
 		pv := op.Args[0]
 		before := backing(x.h)
 		want := append(x.values(), pv)
 		var got []int
+		var pushed *hElem
 		for v := range x.h.PopAll() {
 			if len(got) == 0 {
-				x.h.Push(pv)
+				pushed = x.h.Push(pv)
 			}
 			got = append(got, v)
 			if len(got) > len(want)+2 {
 				break
 			}
 		}
-		if !sameMultiset(got, want) {
-			return mm("Heap.PopAll|element-lost-or-duplicated", "PopAll with Push(%d) while handling the first element yielded %v, want a permutation of %v", pv, got, sorted(want))
+		// nothing lost, nothing duplicated: what was yielded plus what is still in the heap is the old
+		// content plus the pushed value (the loop may or may not deliver the element pushed from inside it)
+		rest := backing(x.h)
+		all := append([]int(nil), got...)
+		for _, e := range rest {
+			all = append(all, e.Value)
+		}
+		if !sameMultiset(all, want) || len(rest) > 1 || (len(rest) == 1 && rest[0] != pushed) {
+			return mm("Heap.PopAll|element-lost-or-duplicated", "PopAll with Push(%d) while handling the first element yielded %v and left %d element(s) in the heap; want yielded + left = a permutation of %v (only the pushed element may be left)", pv, got, len(rest), sorted(want))
 		}
 		x.live = map[*hElem]int{}
+		if len(rest) == 1 {
+			x.live[pushed] = pv
+		}
 		if len(before) > 0 {
 			x.stale = before[0]
 		}
